@@ -108,6 +108,23 @@ def run_load(ctx, tr, tz="UTC", second_load=False):
     return res
 
 
+def run_load_subprocess(ctx, tr, extra_env, tz="UTC"):
+    """`spowtd load` on the triple in a fresh interpreter with the given environment (e.g. PYTHONOPTIMIZE=1:
+    assert statements are stripped, as with `python -O`); returns (status, number of evapotranspiration and rainfall rows)"""
+    _N[0] += 1
+    name = "s%d" % _N[0]
+    files = write_triple(ctx, tr, name)
+    db = ctx.scratch(name + ".sqlite3")
+    st = cli.run_subprocess(["load", db, "-p", files[0], "-e", files[1], "-z", files[2], "--timezone", tz], extra_env)
+    t = cli.dump(db, ["rainfall_intensity", "evapotranspiration"])
+    for p in list(files) + [db]:
+        try:
+            os.remove(p)
+        except OSError:
+            pass
+    return st, t
+
+
 def impl_outcome(r):
     if r[0] == "ok":
         return "ok"
